@@ -29,7 +29,7 @@ import z3
 
 from pyvc import core as C
 from pyvc import tensor as T
-from pyvc.core import BOOL, INT, KEY, REAL, Builtin, Obj, Sym
+from pyvc.core import BOOL, INT, KEY, REAL, Builtin, Sym
 from pyvc.interp import LoopSpec
 from pyvc.lib import LIB
 from pyvc.lib.ext_returns import definitions_of, induct, oblige_hinted
@@ -198,8 +198,11 @@ def run_gae(E, pre, n, inp, gamma, lam, defaults=False):
             oblige_hinted(E, pre + "gae.returns_is_adv_plus_value", zr(ret.at(t)) == A(t) + zr(v.at(t)), [], assume_after=True,
                           only=[f for f in E.st.pc if z3.is_eq(f) and f.arg(1).get_id() == A(z3.IntVal(t)).get_id()])
         return A, adv, ret
-    fold_is(E, pre + "gae.fold", n, lambda sc, k: sc["carry"](k)[0].z == A(nz - k),
-            base_hints=lambda sc: [], step_hints=lambda sc, k: [(f"scan{sc['id']}.step", (k,)), (pre + "A.rec", (nz - 1 - k,))])
+    if not fold_is(E, pre + "gae.fold", n, lambda sc, k: sc["carry"](k)[0].z == A(nz - k),
+                   base_hints=lambda sc: [], step_hints=lambda sc, k: [(f"scan{sc['id']}.step", (k,)), (pre + "A.rec", (nz - 1 - k,))]):
+        for nm in ("gae.advantage_is_recurrence", "gae.returns_is_adv_plus_value"):
+            E.st.undecided(pre + nm, f"depends on the fold invariant {pre}gae.fold, which is not proved")
+        return A, adv, ret
     sid = last_scan(E)["id"]
     hints = lambda t: [(f"scan{sid}.step", (nz - 1 - t,)), (pre + "gae.fold.ind", (nz - t,)), (pre + "gae.fold.ind", (nz - 1 - t,))]  # noqa: E731
     forall_idx(E, pre + "gae.advantage_is_recurrence", [n], lambda t: zr(adv.at(t)) == A(t), hints)
@@ -449,10 +452,12 @@ def mk_h_a2c(sizes=None):
         shape_is(E, "a2c.returns_shape", fret, (total,))
         sc = last_scan(E)
         sid = sc["id"] if sc else None
-        if sc:
-            fold_is(E, "a2c.fold", n, lambda sc, e, k: z3.Implies(z3.And(e >= 0, e < Nz), sc["funs"][0](e, k) == A(e, nz - k)), sorts=[INT],
+        if sc and not fold_is(E, "a2c.fold", n, lambda sc, e, k: z3.Implies(z3.And(e >= 0, e < Nz), sc["funs"][0](e, k) == A(e, nz - k)), sorts=[INT],
                     base_hints=lambda sc, e: [(f"scan{sid}.init", (e,)), ("A.end", (e,))],
-                    step_hints=lambda sc, e, k: [(f"scan{sid}.step", (e, k)), ("A.rec", (e, nz - 1 - k)), ("a2c.index", (nz - 1 - k, e)), ("a2c.index", (nz - k, e))])
+                    step_hints=lambda sc, e, k: [(f"scan{sid}.step", (e, k)), ("A.rec", (e, nz - 1 - k)), ("a2c.index", (nz - 1 - k, e)), ("a2c.index", (nz - k, e))]):
+            for nm in ("a2c.advantage_is_own_env_gae", "a2c.returns_is_own_env_gae_plus_value"):
+                E.st.undecided(nm, "depends on the fold invariant a2c.fold, which is not proved")
+            return
 
         def flat(t, e):  # time-major flattening documented for the outputs: (Time * Num_Envs,)
             return C.binop("+", C.binop("*", Sym(t), N), Sym(e))
@@ -471,24 +476,31 @@ def mk_h_a2c(sizes=None):
     return h
 
 
-# ============================================= PPO: GAE on the flattened rollout
+# ================================== PPO: per-environment GAE on the flattened rollout
 PPO_UPDATE = "rl_blox.algorithm.ppo.update_ppo"
+PPO_TRAIN = "rl_blox.algorithm.ppo.train_ppo"
+PPO_LOSS = "rl_blox.algorithm.ppo.ppo_loss"
 
 
 class _Stop(Exception):
-    """raised by the compute_gae spy: the rest of update_ppo (losses, optimizer steps) belongs to C12"""
+    """raised by the loss observer: the loss itself and the optimizer steps of update_ppo belong to C12"""
 
 
 def setup_ppo(shared):
-    def spy(E, *a, **k):
-        res = E.call_closure(E.resolve(GAE), list(a), dict(k))  # the REAL compute_gae (inlined), observed
-        E.st.ghost["c07.gae_call"] = dict(args=a, kwargs=k, result=res)
+    def observe_loss(E, fn, args, kwargs, has_aux):
+        # nnx.value_and_grad(ppo_loss, ...)(actor, critic, logp, observation, action, advs, returns): the advantages /
+        # returns handed to the loss are what the property speaks about
+        E.st.ghost["c07.loss_call"] = dict(fn=getattr(fn, "qualname", str(fn)), args=args)
         raise _Stop()
 
-    shared.stubs[GAE] = spy
+    shared.loss_stub = observe_loss
 
 
-def mk_h_ppo(sizes=None):
+def mk_h_ppo(sizes=None, pass_n_envs=True):
+    """update_ppo called as train_ppo calls it (n_envs = number of environments, rollout flattened
+    environment-major).  pass_n_envs=False: negative control with the default n_envs = 1."""
+    from pyvc.lib.ext_policy_stub import mk_policy
+
     def h(E):
         Ne, n = sizes if sizes else (E.dim("E"), E.dim("T"))
         M = T.norm_dim(C.binop("*", Ne, n))
@@ -499,72 +511,111 @@ def mk_h_ppo(sizes=None):
         terminated = flags(E, "terminated", (M,))
         next_value = T.fresh_tensor("next_value", (M,), REAL)
         critic = mk_net(E, "critic", 1)
-        actor = mk_net(E, "actor", 1)
-        nz, Mz = T.dim_z(n), T.dim_z(M)
+        actor = mk_policy(E, "actor", None)
+        nz, Ez = T.dim_z(n), T.dim_z(Ne)
         gamma, lam = Fraction(99, 100), Fraction(95, 100)  # update_ppo relies on compute_gae's defaults
         Vc = net_call(E, critic, observation)
 
         def fl(t, e):  # env-major flattening produced by collect_trajectories.reshape_batch
-            return e * nz + t
+            return C.to_z3(C.binop("+", C.binop("*", Sym(e) if isinstance(e, z3.ExprRef) else e, n), Sym(t) if isinstance(t, z3.ExprRef) else t))
 
         # REQUIRED (property): the advantage at flat index e*T+t is environment e's own GAE
         A = gae_spec_env(E, "A", n, Ne, lambda t, e: zr(reward.at(fl(t, e))), lambda t, e: zr(Vc.at(fl(t, e), 0)),
                          lambda t, e: zr(next_value.at(fl(t, e))), lambda t, e: zr(terminated.at(fl(t, e))), gamma, lam)
+        if not conc(n):
+            index_lemma(E, "ppo.index.row_major", n)
+        extra = (1, Ne) if pass_n_envs else (1,)
         try:
-            E.call(PPO_UPDATE, actor, critic, None, None, observation, action, reward, terminated, next_value, 1)
-            E.st.fail("update_ppo.calls_compute_gae", "update_ppo returned without computing advantages")
+            E.call(PPO_UPDATE, actor, critic, None, None, observation, action, reward, terminated, next_value, *extra)
+            E.st.fail("update_ppo.hands_advantages_to_ppo_loss", "update_ppo returned without differentiating a loss")
             return
         except _Stop:
-            E.st.ok("update_ppo.calls_compute_gae")
-        res = E.st.ghost["c07.gae_call"]["result"]
-        adv, ret = res.get("advantages"), res.get("returns")
-        shape_is(E, "ppo.advantages_shape", adv, (M,))
-        if conc(Ne, n):
-            # per environment, in scan order: each link from the carry's definition, the recurrence at (e, t) and the previous link
-            for e in range(Ne):
-                prev = []
-                for t in range(n - 1, -1, -1):
-                    f = e * n + t
-                    a_et = A(z3.IntVal(e), z3.IntVal(t))
-                    only = definitions_of(E, adv.at(f), a_et, A(z3.IntVal(e), nz)) + prev
-                    g = C.as_bool(C.compare("==", adv.at(f), Sym(a_et)))
-                    ok = link(E, "post.per_env_gae", g, only)
-                    g2 = C.as_bool(C.compare("==", ret.at(f), Sym(a_et + zr(Vc.at(f, 0)))))
-                    link(E, "post.per_env_returns", g2, only)
-                    prev = [g] if ok else []
-                    if ok:
-                        E.assume(g)
-            E.oblige("canary.ppo", C.compare("==", adv.at(0), 0), assume_after=False)
+            pass
+        lc = E.st.ghost["c07.loss_call"]
+        if lc["fn"] != PPO_LOSS or len(lc["args"]) != 7:
+            E.st.fail("update_ppo.hands_advantages_to_ppo_loss", f"differentiated {lc['fn']} with {len(lc['args'])} arguments")
             return
-        # what the code computes: ONE recurrence over the whole flattened array
-        AF = gae_spec(E, "AF", M, lambda f: zr(reward.at(f)), lambda f: zr(Vc.at(f, 0)), lambda f: zr(next_value.at(f)), lambda f: zr(terminated.at(f)), gamma, lam)
-        fold_is(E, "ppo.fold", M, lambda sc, k: sc["carry"](k)[0].z == AF(Mz - k),
-                base_hints=lambda sc: [], step_hints=lambda sc, k: [(f"scan{sc['id']}.step", (k,)), ("AF.rec", (Mz - 1 - k,))])
-        sid = last_scan(E)["id"]
+        E.st.ok("update_ppo.hands_advantages_to_ppo_loss")
+        adv, ret = lc["args"][5], lc["args"][6]
+        shape_is(E, "ppo.advantages_shape", adv, (M,))
+        shape_is(E, "ppo.returns_shape", ret, (M,))
+        if conc(Ne, n):
+            # no named carries under vmap: each VC from the recurrences of environment e at t, t+1, .., T
+            def ctx(e, t):
+                return definitions_of(E, *[A(z3.IntVal(e), z3.IntVal(u)) for u in range(t, n + 1)])
+
+            if pass_n_envs:
+                for e in range(Ne):
+                    for t in range(n):
+                        a_et = A(z3.IntVal(e), z3.IntVal(t))
+                        link(E, "post.per_env_gae", C.compare("==", adv.at(e * n + t), Sym(a_et)), ctx(e, t))
+                        link(E, "post.per_env_returns", C.compare("==", ret.at(e * n + t), Sym(a_et + zr(Vc.at(e * n + t, 0)))), ctx(e, t))
+                E.oblige("canary.ppo", C.compare("==", adv.at(0), 0), assume_after=False)
+            else:
+                # default n_envs = 1: ONE scan over the flattened rollout.  The last environment is still right ...
+                e = Ne - 1
+                for t in range(n):
+                    link(E, "control.default_n_envs.last_env_is_own_gae", C.compare("==", adv.at(e * n + t), Sym(A(z3.IntVal(e), z3.IntVal(t)))), ctx(e, t))
+                # ... but the last step of environment 0 continues into environment 1 (must be refuted:
+                # the required postcondition is sensitive to the environment count that is passed)
+                E.oblige("canary.control.default_n_envs.first_env_is_own_gae", C.compare("==", adv.at(n - 1), Sym(A(z3.IntVal(0), z3.IntVal(n - 1)))), assume_after=False)
+            return
+        sc = last_scan(E)
+        if sc is None or len(sc["amb"]) != 1:
+            E.st.fail("ppo.one_fold_per_environment", "the advantage estimate is not a scan under a vmap over environments")
+            return
+        E.st.ok("ppo.one_fold_per_environment")
+        sid = sc["id"]
+        if not fold_is(E, "ppo.fold", n, lambda sc, e, k: z3.Implies(z3.And(e >= 0, e < Ez), sc["funs"][0](e, k) == A(e, nz - k)), sorts=[INT],
+                       base_hints=lambda sc, e: [(f"scan{sid}.init", (e,)), ("A.end", (e,))],
+                       step_hints=lambda sc, e, k: [(f"scan{sid}.step", (e, k)), ("A.rec", (e, nz - 1 - k))]):
+            for nm in ("post.per_env_gae", "post.per_env_returns"):
+                E.st.undecided(nm, "depends on the fold invariant ppo.fold, which is not proved")
+            return
 
         def hints(t, e):
-            f = fl(t, e)
-            return [(f"scan{sid}.step", (Mz - 1 - f,)), ("ppo.fold.ind", (Mz - f,)), ("ppo.fold.ind", (Mz - 1 - f,)), ("A.rec", (e, t)), ("AF.rec", (f,)), ("A.end", (e,))]
+            return [("ppo.index", (e, t)), (f"scan{sid}.step", (e, nz - 1 - t)), ("ppo.fold.ind", (e, nz - t)), ("ppo.fold.ind", (e, nz - 1 - t))]
 
-        # diagnosis (what the single scan does at the boundary between two environments): the last step of
-        # environment e < E-1 continues with the FIRST advantage of environment e+1 unless a termination flag cuts it
-        ez = E.st.fresh("e_b", INT)
-        fb = ez * nz + nz - 1
-        oblige_hinted(E, "diag.boundary_step_continues_into_next_env",
-                      z3.Implies(z3.And(ez >= 0, ez < T.dim_z(Ne) - 1),
-                                 zr(adv.at(fb)) == zr(reward.at(fb)) + zr(gamma) * zr(next_value.at(fb)) * (1 - zr(terminated.at(fb))) - zr(Vc.at(fb, 0))
-                                 + zr(gamma) * zr(lam) * (1 - zr(terminated.at(fb))) * zr(adv.at(fb + 1))),
-                      known(E, [(f"scan{sid}.step", (Mz - 1 - fb,)), (f"scan{sid}.step", (Mz - 2 - fb,)), ("ppo.fold.ind", (Mz - fb,)), ("ppo.fold.ind", (Mz - 1 - fb,)),
-                                ("ppo.fold.ind", (Mz - 2 - fb,)), ("AF.rec", (fb,)), ("AF.rec", (fb + 1,))]))
-        ok = forall_idx(E, "post.per_env_gae", [n, Ne], lambda t, e: zr(adv.at(fl(t, e))) == A(e, t), hints, hint="te")
-        if ok:
-            forall_idx(E, "post.per_env_returns", [n, Ne], lambda t, e: zr(ret.at(fl(t, e))) == A(e, t) + zr(Vc.at(fl(t, e), 0)), hints, hint="te")
-        else:
-            E.st.undecided("post.per_env_returns", "returns = advantages + values: depends on post.per_env_gae, which is not proved")
+        forall_idx(E, "post.per_env_gae", [n, Ne], lambda t, e: zr(adv.at(fl(t, e))) == A(e, t), hints, hint="te")
+        forall_idx(E, "post.per_env_returns", [n, Ne], lambda t, e: zr(ret.at(fl(t, e))) == A(e, t) + zr(Vc.at(fl(t, e), 0)), hints, hint="te")
         tc, ec = generic_row(E, n, "t_c"), generic_row(E, Ne, "e_c")
-        oblige_hinted(E, "canary.ppo", C.compare("==", adv.at(fl(tc.z, ec.z)), 0), known(E, hints(tc.z, ec.z)))
+        oblige_hinted(E, "canary.ppo", C.compare("==", adv.at(fl(tc.z, ec.z)), 0), known(E, hints(tc.z, ec.z) + [("A.rec", (ec.z, tc.z))]))
 
     return h
+
+
+def h_train_ppo_call_site(E):
+    """train_ppo hands the environment count to update_ppo: the argument bound to `n_envs` is `envs.num_envs`
+    (syntactic check on the real AST; update_ppo's per-environment estimate is only as good as that argument)"""
+    import ast
+
+    upd, trn = E.resolve(PPO_UPDATE), E.resolve(PPO_TRAIN)
+    params = [a.arg for a in upd.node.args.posonlyargs + upd.node.args.args]
+    if "n_envs" not in params:
+        E.st.fail("train_ppo.passes_num_envs", "update_ppo has no n_envs parameter")
+        return
+    pos = params.index("n_envs")
+    calls = [c for c in ast.walk(trn.node) if isinstance(c, ast.Call) and isinstance(c.func, ast.Name) and c.func.id == "update_ppo"]
+    if not calls:
+        E.st.fail("train_ppo.passes_num_envs", "train_ppo does not call update_ppo")
+        return
+    bad = []
+    for c in calls:
+        arg = c.args[pos] if pos < len(c.args) and not any(isinstance(a, ast.Starred) for a in c.args) else None
+        for kw in c.keywords:
+            if kw.arg == "n_envs":
+                arg = kw.value
+        src = ast.unparse(arg) if arg is not None else "<default 1>"
+        if src != "envs.num_envs":
+            bad.append(f"line {c.lineno}: n_envs = {src}")
+    first = trn.node.args.args[0].arg if trn.node.args.args else None
+    if first != "envs":
+        bad.append(f"train_ppo's environment parameter is {first!r}, not 'envs'")
+    if bad:
+        E.st.fail("train_ppo.passes_num_envs", "; ".join(bad))
+    else:
+        E.st.ok("train_ppo.passes_num_envs")
+    E.oblige("canary.train_ppo_call_site", C.compare("==", E.int("unconstrained"), 0), assume_after=False)
 
 
 # ===================================== PPO: collect_trajectories (bounded sizes)
@@ -784,9 +835,54 @@ TASKS = [
     Task("reward_to_go_causality", h_rtg_causal, setup=setup_rtg),
     Task("prepare_a2c_batch", mk_h_a2c()),
     Task("update_ppo", mk_h_ppo(), setup=setup_ppo),
-    Task("update_ppo[E=2,T=2]", mk_h_ppo((2, 2)), setup=setup_ppo, bounded="E = 2 environments, T = 2 steps (scan unrolled)"),
+    Task("update_ppo[E=2,T=2]", mk_h_ppo((2, 2)), setup=setup_ppo, bounded="E = 2 environments, T = 2 steps (scans unrolled)"),
+    Task("update_ppo[E=1,T=3]", mk_h_ppo((1, 3)), setup=setup_ppo, bounded="single environment, T = 3 steps"),
+    Task("update_ppo[default n_envs, E=2,T=2]", mk_h_ppo((2, 2), pass_n_envs=False), setup=setup_ppo,
+         bounded="negative control: n_envs left at its default 1 with 2 environments x 2 steps"),
+    Task("train_ppo_call_site", h_train_ppo_call_site),
 ]
 
-TRUSTED = []
-ASSUMPTIONS = []
-NOT_COVERED = []
+TRUSTED = [
+    "reals for float32 / float64 arithmetic (rounding is not modelled; the replay driver compares with float64 recurrences at rtol 2e-4)",
+    "jax.lax.scan is the fold documented by JAX: c(0) = init, (c(k+1), y(k)) = f(c(k), xs[k]); ys stacked in input order "
+    "(pyvc/lib/ext_returns.py; the body is interpreted once at a generic step and must not branch)",
+    "induction schema over 0..n (pyvc.lib.ext_returns.induct): base and step are proof obligations, the universally quantified conclusion is "
+    "assumed afterwards - lemmas/SumLemmas.lean PyvcSum.nat_induct_upto / fold_unique (checked by lean)",
+    "jax.vmap(f, in_axes)(xs)[i] = f(xs[.., i, ..]) with per-slice function symbols for the folds inside (pyvc/lib/jax_model.py + ext_returns.py)",
+    "reshape / permute_dims / .T / [::-1] / concatenate / hstack index maps of pyvc.tensor (row-major)",
+    "python lists of symbolic length (pyvc/lib/ext_symlist.py) with reversed() and for-iteration as position loops (ext_returns.py); loop cut with the "
+    "sidecar invariants of this file (checked on entry and preservation)",
+    "networks (value function, critic, encoders, Q heads) are uninterpreted ROW-WISE functions of their parameters (contracts/nets.py)",
+    "closed forms of the recurrences (sum / product form of R_n and D_n; suffix congruence of the GAE recurrence) are proved in "
+    "lemmas/SumLemmas.lean: nstep_closed_form, gae_congr_suffix",
+]
+ASSUMPTIONS = [
+    "termination flags are 0/1 valued (int / bool arrays as produced by gymnasium and the replay buffers)",
+    "gamma, lambda in [0,1] (only used for documentation: the equalities hold for all real gamma, lambda)",
+    "non-interference is stated for the data set the property names: two inputs that agree on the steps t..last of the same trajectory "
+    "(last = a terminated step at or after t - a fortiori the first one - or the final step) give the same estimate at t; "
+    "data before t, after `last`, of other rows / environments / episodes is unconstrained in both copies",
+    "update_ppo is called as train_ppo calls it (epochs, n_envs = number of environments; train_ppo_call_site checks that argument syntactically) and "
+    "analysed up to the point where the advantages / returns are handed to nnx.value_and_grad(ppo_loss) (observed through shared.loss_stub); the loss and "
+    "the optimizer steps are C12; the actor is the row-wise stochastic policy stub of pyvc/lib/ext_policy_stub.py",
+    "PPO flattening convention e*T+t (environment-major) is the one produced by collect_trajectories.reshape_batch (proved for E=T=2 in "
+    "collect_trajectories[...].post.reshape.*); the rollout length is literally n_envs * T (reshape(n_envs, -1) splits it exactly)",
+    "collect_trajectories: environments, actor, critic and logger are stubs that return arbitrary per-environment data; the critic stub records which rows it is fed; "
+    "the info dict follows gymnasium's SAME_STEP autoreset + RecordEpisodeStatistics keys (episode.r, episode.l, final_obs, _episode)",
+    "MR.Q: reward_scale > 0",
+]
+NOT_COVERED = [
+    "truncation handling (bootstrapping through time-limit truncations; the property cuts at *terminated* steps only)",
+    "model_based_encoder_loss.model_rollout mask recurrence prev_not_done (nnx.scan with module carry): covered by C03's contract of the encoder loss, not here",
+    "EpisodeDataset.prepare_policy_gradient_dataset and ppo.collect_trajectories for symbolic sizes (bounded stand-ins only: concrete episode / environment counts)",
+    "a2c.collect_trajectories / ReplayBuffer storage order feeding prepare_a2c_batch (C02)",
+    "train_a2c / train_ppo / train_mrq call sites (that the prepared batches are the ones passed to the updates)",
+    "degenerate A2C rollouts with a single environment or a single step (value_function(...).squeeze() drops the axis; reshape raises / broadcasts)",
+]
+REPLAY = {"": "c07_returns"}
+EXPLANATION = (
+    "Every estimator is proved equal to its textbook recurrence for symbolic sequence lengths, batch sizes and environment counts; causality follows by induction along the "
+    "recurrence on two input copies. PPO (repaired code): update_ppo estimates per environment (vmap of compute_gae over reshape(n_envs, -1)), so the advantage / return at "
+    "flat index e*T+t is environment e's own GAE for symbolic E and T; the negative control with the default n_envs = 1 shows that the obligation notices a single scan over "
+    "the flattened rollout; collect_trajectories bootstraps every finished environment from its own final observation."
+)
